@@ -248,7 +248,7 @@ non-trivial = chunked pair with L > n-5 and n >= 21, or n-5-L in {0,1}; distinct
     ],
     randoms: &[RandomDef {
         name: "loops",
-        cases: |t: Tier| t.pick(30_000, 600_000),
+        cases: |t: Tier| t.pick(30_000, 6_000_000),
         tape_len: 12,
         exec: Some(exec_loop),
     }],
